@@ -107,7 +107,54 @@ def _consumer_insensitive(ctx, fn: FuncInfo, node: ast.AST) -> str | None:
         return "membership test"
     if isinstance(par, ast.Call) and call_name(par) in ("list", "tuple") :
         return _consumer_insensitive(ctx, fn, par)
+    if isinstance(par, (ast.Assign, ast.AnnAssign)) and par.value is node:
+        tg = par.targets if isinstance(par, ast.Assign) else [par.target]
+        if len(tg) == 1 and isinstance(tg[0], ast.Name) and _sorted_before_all_uses(fn, tg[0].id, par):
+            return f"collected into `{tg[0].id}`, which is sorted in place before it is used"
     return None
+
+
+def _sorted_before_all_uses(fn: FuncInfo, name: str, after: ast.AST) -> bool:
+    """Every read of the list `name` after statement `after` (other than filling it) comes after a `name.sort()`."""
+    start = getattr(after, "end_lineno", None) or after.lineno
+    sorts, uses = [], []
+    pm = {id(c): p for p in ast.walk(fn.node) for c in ast.iter_child_nodes(p)}
+    for n in walk_no_nested(fn.node):
+        if isinstance(n, ast.Name) and n.id == name and isinstance(n.ctx, ast.Load) and n.lineno >= after.lineno:
+            par = pm.get(id(n))
+            if isinstance(par, ast.Attribute) and par.value is n and isinstance(pm.get(id(par)), ast.Call) and pm[id(par)].func is par:
+                if par.attr == "sort":
+                    sorts.append(n.lineno)
+                    continue
+                if par.attr in ("append", "extend", "add"):
+                    continue
+            if n.lineno > start or not any(x is n for x in ast.walk(after)):
+                uses.append(n.lineno)
+        elif isinstance(n, (ast.Assign, ast.AugAssign)) and n is not after and n.lineno > start:
+            tg = n.targets if isinstance(n, ast.Assign) else [n.target]
+            if any(isinstance(t, ast.Name) and t.id == name for t in tg):
+                return False
+    return bool(sorts) and all(min(sorts) < u for u in uses)
+
+
+def _loop_collects_into(loop: ast.For) -> str | None:
+    """The loop only filters its items into one local list (`L.append(item)` under ifs / continue): name of L."""
+    target = None
+    for st in loop.body:
+        for n in ast.walk(st):
+            if isinstance(n, ast.Call):
+                if isinstance(n.func, ast.Attribute) and n.func.attr == "append" and isinstance(n.func.value, ast.Name):
+                    if target not in (None, n.func.value.id):
+                        return None
+                    target = n.func.value.id
+                    continue
+                la = last_attr(n.func) or ""
+                if la in ("is_symlink", "is_file", "is_dir", "exists", "startswith", "endswith", "match", "fnmatch", "isinstance", "Path", "str", "debug"):
+                    continue
+                return None
+            if isinstance(n, (ast.Return, ast.Yield, ast.Break, ast.Assign, ast.AugAssign, ast.Raise)):
+                return None
+    return target
 
 
 def _body_insensitive(body: list[ast.stmt]) -> bool:
@@ -136,6 +183,9 @@ def unordered_iterations(ctx, fn: FuncInfo):
         if isinstance(n, (ast.For, ast.AsyncFor)):
             src = unordered_source(ctx, fn, n.iter)
             if src is not None and not _body_insensitive(n.body):
+                coll = _loop_collects_into(n)
+                if coll is not None and _sorted_before_all_uses(fn, coll, n):
+                    continue  # filtered into a list that is sorted before anyone looks at it
                 out.append((n, src, "for"))
         elif isinstance(n, (ast.ListComp, ast.GeneratorExp, ast.DictComp)):
             for g in n.generators:
@@ -220,8 +270,10 @@ def rule_ordered_merge(ctx, rep):
     rep.check("R-ORDERED-MERGE", fn.qname, fn.loc(bad[0]) if bad else fn.loc(), not bad, "no-unordered-gather",
               "per-file results are gathered with " + ", ".join(unparse(b.func) for b in bad) + " (completion order)")
     mf = ctx.prog.func("codemodder.code_directory.match_files")
-    rets = [n.value for n in walk_no_nested(mf.node) if isinstance(n, ast.Return) and n.value is not None]
-    ok = bool(rets) and all("sorted(" in unparse(v) for v in rets)
+    from ..order import is_sorted_value
+
+    rets = [n for n in walk_no_nested(mf.node) if isinstance(n, ast.Return) and n.value is not None]
+    ok = bool(rets) and all(is_sorted_value(ctx, mf, n.value, n) for n in rets)
     rep.check("R-ORDERED-MERGE", mf.qname, mf.loc(), ok, "sorted-files", "match_files no longer returns a sorted list")
     # both get_files_to_analyze variants derive from match_files (see C05 R-FILESET-SOURCE)
 
